@@ -15,6 +15,7 @@ from . import c_client  # noqa: E402,F401
 from . import c_dns  # noqa: E402,F401
 from . import c_asn1  # noqa: E402,F401
 from . import c_codecs  # noqa: E402,F401
+from . import c_sd  # noqa: E402,F401
 from . import c_cms  # noqa: E402,F401
 from . import c_kek  # noqa: E402,F401
 from . import c_rpc  # noqa: E402,F401
